@@ -10,7 +10,7 @@
 //!                succeeded the stream must not have ended while that owner is alive
 use crate::common::b2s;
 use crate::m_adapt::CountWaker;
-use crate::m_obs::{val, Val};
+use crate::m_obs::{show, val};
 use eyeball::SharedObservable;
 use futures_core::Stream;
 use std::pin::Pin;
@@ -189,6 +189,54 @@ pub fn run_line(line: &str, out: &mut String) {
                 let first = Pin::new(&mut sub).poll_next(&mut cx);
                 let second = Pin::new(&mut sub).poll_next(&mut cx);
                 if !matches!(first, Poll::Ready(Some(_))) || !second.is_pending() {
+                    stale += 1;
+                }
+            }
+            "setifhash" => {
+                // C04: the same for set_if_hash_not_eq (initial value 0 has hash class 0; 61 and 71 share class 1)
+                let b2 = barrier.clone();
+                let ob2 = ob.clone();
+                let h = std::thread::spawn(move || {
+                    b2.wait(d2);
+                    ob2.set_if_hash_not_eq(val(61)).is_some()
+                });
+                barrier.wait(d1);
+                let a = ob.set_if_hash_not_eq(val(71)).is_some();
+                let b = h.join().unwrap();
+                if a == b {
+                    order += 1;
+                }
+                let mut cx = Context::from_waker(&waker);
+                let first = Pin::new(&mut sub).poll_next(&mut cx);
+                let second = Pin::new(&mut sub).poll_next(&mut cx);
+                if !matches!(first, Poll::Ready(Some(_))) || !second.is_pending() {
+                    stale += 1;
+                }
+            }
+            "condset" => {
+                // C04: a conditional writer racing a plain set of a value it must consider equal: in either
+                // order the conditional writer never returns Some(previous) with previous equal to its own
+                // argument; (None, 0) and (Some(0), new) are the only legal pairs of results
+                let by_hash = d1 % 2 == 0;
+                let b2 = barrier.clone();
+                let ob2 = ob.clone();
+                let h = std::thread::spawn(move || {
+                    b2.wait(d2);
+                    show(ob2.set(val(51)))
+                });
+                barrier.wait(d1);
+                let a = if by_hash { ob.set_if_hash_not_eq(val(61)) } else { ob.set_if_not_eq(val(52)) };
+                let b = h.join().unwrap();
+                // set(51): e = 5, h = 1.  set_if_not_eq(52) is equal to it by e; set_if_hash_not_eq(61) by h
+                let legal = match a {
+                    None => b == 0,
+                    Some(p) => show(p) == 0 && (b == 52 || b == 61),
+                };
+                if !legal {
+                    order += 1;
+                }
+                let fin = show(ob.get());
+                if fin != 51 {
                     stale += 1;
                 }
             }
